@@ -42,6 +42,7 @@ func runC06(c *Ctx, idx int) {
 		}
 		// variants: disabled modules, traits on nodes
 		s := snapGenome(g)
+		modularVariants(r, s)
 		if r.Intn(2) == 0 {
 			s.Modules[r.Intn(len(s.Modules))].En = false
 		}
